@@ -1437,7 +1437,7 @@ def compile_pattern(compiler, pattern):
                 if type(head) is Expression
                 else head).expr,
             patterns=[compile_pattern(compiler, v) for v in args],
-            kwd_attrs=[kwd.name for kwd in keywords],
+            kwd_attrs=[mangle(kwd.name) for kwd in keywords],
             kwd_patterns=[compile_pattern(compiler, value) for value in values],
         )
     elif isinstance(value, Keyword):
